@@ -222,7 +222,16 @@ func c04Fixed() {
 	max := simrt.DrawRange(1, 5)
 	target := simrt.DrawRange(-2, max) // "target <= max": a negative target asks for more than everything, i.e. everything
 	forced := 0
-	b := newBuffer(bigbuff.FixedBufferCleaner(max, target, func(n bigbuff.FixedBufferCleanerNotification) { forced++ }), cool)
+	fixed := bigbuff.FixedBufferCleaner(max, target, func(n bigbuff.FixedBufferCleanerNotification) { forced++ })
+	// late: the bound is installed on a buffer that is already in use and has gone quiet (a program that
+	// tightens its memory bound at run time); nothing else happens afterwards
+	late := simrt.Chance(1, 4)
+	var b *bigbuff.Buffer
+	if late {
+		b = newBuffer(nil, cool)
+	} else {
+		b = newBuffer(fixed, cool)
+	}
 	nCons := simrt.DrawRange(0, 2)
 	total := 0
 	var batches []int
@@ -253,6 +262,9 @@ func c04Fixed() {
 			return
 		}
 		reads := simrt.DrawRange(0, total)
+		if reads > 400 {
+			reads = 400 + reads%100 // (a huge batch read to the end would not fit the step budget)
+		}
 		i := i
 		go func() {
 			pending := 0
@@ -286,6 +298,17 @@ func c04Fixed() {
 	simrt.Quiesce(-1)
 	if simrt.Failed() {
 		return
+	}
+	if late {
+		simrt.Probe("cleaner_configured_on_a_quiet_buffer")
+		if err := b.SetCleanerConfig(bigbuff.CleanerConfig{Cleaner: fixed, Cooldown: cool}); err != nil {
+			simrt.Failf("C04.setup", "SetCleanerConfig: %v", err)
+			return
+		}
+		simrt.Quiesce(-1)
+		if simrt.Failed() {
+			return
+		}
 	}
 	if forced > 0 {
 		simrt.Fault("forced_trim")
